@@ -108,9 +108,7 @@ func (c *Ctx) Case(fn string, args ...Val) Val {
 		panic("unknown impl " + fn)
 	}
 	argStr := L(args...).String()
-	if !c.Quiet {
-		noteInflight("case", fn, argStr)
-	}
+	noteInflight("case", fn, argStr)
 	v := callImpl(f, args)
 	if c.Tap != nil {
 		c.Tap(fn, args, v)
@@ -142,10 +140,10 @@ func (c *Ctx) Check(name string, args ...Val) bool {
 	if !ok {
 		panic("unknown oracle " + name)
 	}
+	noteInflight("oracle", name, L(args...).String())
 	if c.Quiet {
 		return true
 	}
-	noteInflight("oracle", name, L(args...).String())
 	key, detail := callOracle(f, args)
 	c.NChecks++
 	c.Hist["oracle:"+name]++
